@@ -68,6 +68,7 @@ type Exec struct {
 	mapTags  map[string]int64
 	entryAlloc *Term
 	pendingSelfType types.Type
+	iterators map[*Term]*iterInfo // iterator function values returned by functions with a `yields` clause
 }
 
 type closureInfo struct {
